@@ -317,6 +317,7 @@ namespace avel {
         }
 
         AVEL_FINL Vector& operator/=(Vector rhs) {
+            content /= decay(rhs);
             return *this;
             /*
             auto results = div(*this, rhs);
